@@ -77,6 +77,10 @@ func (s *base) onWrite(b []byte) {
 		case s.rejected <- binary.BigEndian.Uint32(b[5:]):
 		default:
 		}
+	case 80, 81, 82, 97, 98, 99, 100:
+		// requests / replies / close written by the real side while tearing down: not part of this observable
+	default:
+		s.event(fmt.Sprintf("Xtype%d", b[0])) // not a connection-protocol packet: a clobbered or corrupted header
 	case 96:
 		s.event("F")
 	case 93:
